@@ -269,6 +269,17 @@ namespace hv
         }
     };
     template <int K>
+    struct FnS   // one argument, returns a SET (a collection-valued result, e.g. of a switch branch)
+    {
+        static constexpr auto name = "fns";
+        static Port<TSS<Int>> compose(Wiring &w, Port<TS<Int>> a)
+        {
+            PortVal r;
+            interpret(w, ctx().graphs.at("fn" + std::to_string(K)), {PortVal{a.erased(), PT::Int}}, &r);
+            return Port<TSS<Int>>{w, r.ref};
+        }
+    };
+    template <int K>
     struct Fn0
     {
         static constexpr auto name = "fn0";
@@ -343,6 +354,7 @@ namespace hv
         if (n == "fnd") return dispatch_k<FnD>(k, [](WiredFn f) { return f; });
         if (n == "fnp") return dispatch_k<FnP>(k, [](WiredFn f) { return f; });
         if (n == "fn0") return dispatch_k<Fn0>(k, [](WiredFn f) { return f; });
+        if (n == "fns") return dispatch_k<FnS>(k, [](WiredFn f) { return f; });
         if (n == "sum") return fn<VSum2>();
         if (n == "max") return fn<VMax2>();
         if (n == "xor") return fn<VXor2>();
